@@ -2019,7 +2019,13 @@ func (rs *RetributionStore) ForAll(cb func(*retributionInfo) error,
 				return err
 			}
 
-			tapInfoBytes := tapRetBucket.Get(k)
+			// The taproot bucket is missing if all retributions
+			// were stored by a version that predates it, none of
+			// them belongs to a taproot channel then.
+			var tapInfoBytes []byte
+			if tapRetBucket != nil {
+				tapInfoBytes = tapRetBucket.Get(k)
+			}
 			if tapInfoBytes != nil {
 				var tapCase taprootBriefcase
 				err := tapCase.Decode(
